@@ -136,20 +136,28 @@ Query == /\ built /\ UNCHANGED vars /\ last' = [a |-> "query"]
 
 Bij(S) == {m \in [S -> S] : \A x, y \in S : m[x] = m[y] => x = y}
 
-Next ==
-  \/ BuildEmpty
-  \/ \E K \in SUBSET Verts : \E S \in SmallEdgeSets : BuildGraphDict(K, S) \/ BuildOutDict(K, S)
-  \/ \E S \in (SUBSET Verts) \ {{}} : AddVertices(S)
-  \/ \E t, h \in Verts : \E l \in Labels : AddEdge(t, h, l)
-  \/ \E t, h \in Verts : \E Ls \in {L \in SUBSET Labels : Cardinality(L) >= 2} : AddEdgeList(t, h, Ls)
-  \/ \E e1, e2 \in Edge :
+\* every in-place edit of the public API (one disjunct per mutating method / calling convention);
+\* MutateK(Ks) restricts to the actions whose name (field a of last) is in Ks
+AllKinds == {"add_vertices", "add_edge", "add_edge_list", "add_two_edges", "delete_vertex", "delete_vertices",
+             "recurrent_inplace", "rename_inplace"}
+MutateK(Ks) ==
+  \/ "add_vertices" \in Ks /\ \E S \in (SUBSET Verts) \ {{}} : AddVertices(S)
+  \/ "add_edge" \in Ks /\ \E t, h \in Verts : \E l \in Labels : AddEdge(t, h, l)
+  \/ "add_edge_list" \in Ks /\ \E t, h \in Verts : \E Ls \in {L \in SUBSET Labels : Cardinality(L) >= 2} : AddEdgeList(t, h, Ls)
+  \/ "add_two_edges" \in Ks /\ \E e1, e2 \in Edge :
         /\ \/ (e1[1] = e2[1] /\ e1[3] = e2[3])      \* parallel edges in one call
            \/ (e1[1] = e2[3] /\ e1[3] = e2[1])      \* an edge and its reverse in one call
         /\ AddTwoEdges(e1, e2)
-  \/ \E v \in Verts : DeleteVertex(v)
-  \/ \E S \in {T \in SUBSET Verts : Cardinality(T) = 2} : DeleteVertices(S)
-  \/ RecurrentInPlace
-  \/ \E m \in Bij(Labels) : RenameInPlace(m)
+  \/ "delete_vertex" \in Ks /\ \E v \in Verts : DeleteVertex(v)
+  \/ "delete_vertices" \in Ks /\ \E S \in {T \in SUBSET Verts : Cardinality(T) = 2} : DeleteVertices(S)
+  \/ "recurrent_inplace" \in Ks /\ RecurrentInPlace
+  \/ "rename_inplace" \in Ks /\ \E m \in Bij(Labels) : RenameInPlace(m)
+Mutate == MutateK(AllKinds)
+
+Next ==
+  \/ BuildEmpty
+  \/ \E K \in SUBSET Verts : \E S \in SmallEdgeSets : BuildGraphDict(K, S) \/ BuildOutDict(K, S)
+  \/ Mutate
   \/ Copy
   \/ Query
 
